@@ -257,8 +257,63 @@ pub fn c10_post(case: &Case) {
     }
 }
 
+/// The overload exclusions ("writes shed by the write-queue threshold") only excuse anything while the overload is
+/// real. The write queue is empty after a completed wait()/close(); so when an entry is shed at the queue threshold,
+/// everything that can be in the queue was submitted since the last completed wait - if even all of that together
+/// stays below the configured threshold, the queue gauge is wrong (e.g. it leaks the sizes of entries the flusher had
+/// to drop) and the shed is not the documented limit at work.
+fn shed_only_under_real_overload(case: &Case) {
+    use crate::simdev::PAGE;
+    if !matches!(case.property.as_str(), "C01" | "C09" | "C12" | "C15") {
+        return;
+    }
+    let evs = hist::events_clone();
+    let threshold = if case.get("submit_thr_pages") > 0 { case.get("submit_thr_pages") as usize * PAGE } else { 16 << 20 };
+    let hmode = case.get("hmode") as u8;
+    let (handoffs, lens, max_len): (Vec<(u64, u32, u64, u64)>, std::collections::BTreeMap<(u64, u32), usize>, usize) = ST.with(|s| {
+        let s = s.borrow();
+        let mut lens = std::collections::BTreeMap::new();
+        let mut max_len = 0;
+        for (k, m) in s.model.iter() {
+            for (v, info) in m.versions.iter() {
+                lens.insert((*k, *v), info.len);
+                max_len = max_len.max(info.len);
+            }
+        }
+        (s.handoffs.clone(), lens, max_len)
+    });
+    let mut queued = 0usize;
+    for e in &evs {
+        match e.kind {
+            "wait_ret" | "close_ret" | "reopened" => queued = 0,
+            "enqueue" => {
+                // size of the entry submitted under this engine sequence (unattributed: the largest value of the run)
+                let len = handoffs.iter().find(|(k, _, s, _)| crate::hybscn::hash_of(hmode, *k) == e.a && *s == e.b).and_then(|(k, v, _, _)| lens.get(&(*k, *v)).copied()).unwrap_or(max_len);
+                if std::env::var("VERIF_DEBUG").is_ok() {
+                    eprintln!("[overload] enqueue hash {} seq {} -> len {len} (max {max_len})", e.a, e.b);
+                }
+                queued += len + 64;
+            }
+            "shed" if e.b == 5 => {
+                hist::probe("queue_threshold_shed_checked");
+                if queued <= threshold {
+                    hist::violation(
+                        &case.property,
+                        "shed-below-queue-threshold",
+                        format!("an entry of hash {} was shed at the write-queue threshold ({threshold} bytes) at {}, but at most {queued} bytes have been submitted since the last completed wait()/close(): the queue cannot be that full", e.a, e.seq),
+                        &[],
+                    );
+                    return;
+                }
+            }
+            _ => {}
+        }
+    }
+}
+
 pub fn post(case: &Case) {
     let _ = Op::Clear;
+    shed_only_under_real_overload(case);
     if case.property == "C10" {
         c10_post(case);
     }
